@@ -133,9 +133,14 @@ def h_nldf(env, version, level, rho_mult, specs, l1=()):
         elif version == "j":
             a_i = _doc_expnt(env, fps[k][0], rho)
             if sp == "se_erf_rinv":
-                continue        # kernel not given in closed form by the documentation: no oracle
-            p, m = J_KERNEL[sp]
-            integ = a_i ** p * _gauss_moment(env, m, a_i + a_th)
+                # kernel exp(-a_i r^2) * sqrt(pi) erf(b r) / (2 b r) with b^2 = erf_mul * a_i (-> exp(-a_i r^2) for b -> 0; the form
+                # the C coefficient routines expand).  Lemma: int_0^inf r exp(-c r^2) erf(b r) dr = b / (2 c sqrt(b^2 + c)), hence
+                # int exp(-c r^2) sqrt(pi) erf(b r) / (2 b r) d^3r = pi^(3/2) / (c sqrt(c + b^2)) with c = a_i + a_theta
+                c = a_i + a_th
+                integ = _pi(env) ** env.const(Fraction(3, 2)) / (c * (c + fps[k][-1] * a_i) ** env.const(Fraction(1, 2)))
+            else:
+                p, m = J_KERNEL[sp]
+                integ = a_i ** p * _gauss_moment(env, m, a_i + a_th)
         else:
             a_i = _doc_expnt(env, fps[k][0], rho)
             x = -env.const(Fraction(3, 2)) * a_th / a_i
@@ -375,6 +380,6 @@ META = dict(
     stubs=["load_library -> FakeLib (no C code is reached)"],
     assumptions=["Gaussian moment lemma int r^2m exp(-c r^2) d3r = pi^(3/2)(2m+1)!!/(2^m c^(m+3/2)) is trusted",
                  "SDMX constants are hard-coded numerical integrals: only table consistency (1e-11) and the density power are decided",
-                 "se_erf_rinv has no closed form in the documentation: only that a vector is produced",
+                 "se_erf_rinv: kernel exp(-a_i r^2) sqrt(pi) erf(b r) / (2 b r), b^2 = erf_mul * a_i; the lemma int_0^inf r exp(-c r^2) erf(b r) dr = b / (2 c sqrt(b^2 + c)) is trusted",
                  "settings objects are built with placeholder floats and the symbolic parameters installed afterwards (constructor validation wants python floats)"],
 )
